@@ -103,6 +103,59 @@ def _run_one(args):
     return name, ("error" if err else "ran"), [(f.rule, f.site, f.construct) for f in ctx.findings]
 
 
+BENIGN = os.path.join(os.path.dirname(os.path.dirname(os.path.abspath(__file__))), "benign")
+
+
+def _run_benign(args):
+    pid, name = args
+    from .check import run_check
+    ov = overlay_of(os.path.join(BENIGN, name, "patch.diff"))
+    if ov is None:
+        return name, "skipped", 0
+    try:
+        ctx, err = run_check(pid, "quick", Program(overlay=ov))
+    except Exception as e:
+        return name, "error:" + type(e).__name__, 0
+    return name, ("error" if err else "ran"), [(f.rule, f.site, f.construct) for f in ctx.findings]
+
+
+def run_benign(ctx, jobs=None):
+    """Independently written behaviour-preserving refactorings (/verif/benign): none may produce a new finding under this
+    check; one recorded as silent (exit 0) must not lose its verdict either."""
+    pid = ctx.pid
+    names = [os.path.basename(d) for d in sorted(glob.glob(os.path.join(BENIGN, "*")))
+             if os.path.isfile(os.path.join(d, "patch.diff")) and os.path.isfile(os.path.join(d, "meta.json"))]
+    if not names:
+        return
+    base = {(f.rule, f.site, f.construct) for f in ctx.findings}
+    from .check import guard_resources
+    res = {}
+    with cf.ProcessPoolExecutor(max_workers=jobs or min(16, os.cpu_count() or 4), initializer=guard_resources, initargs=(3,)) as ex:
+        for name, status, keys in ex.map(_run_benign, [(pid, n) for n in names], chunksize=1):
+            res[name] = (status, keys)
+    silent = noverdict = skipped = 0
+    bad = []
+    for n in names:
+        status, keys = res[n]
+        want = json.load(open(os.path.join(BENIGN, n, "meta.json"))).get("checks", {}).get(pid)
+        if status == "skipped":
+            skipped += 1
+            continue
+        new = [k for k in keys if k not in base] if isinstance(keys, list) else []
+        if new:
+            bad.append((n, "FALSE ALARM on a behaviour-preserving refactoring: %s" % (new[:2],)))
+        elif status.startswith("error"):
+            noverdict += 1
+            if want == 0:
+                bad.append((n, "recorded as silent, now no verdict"))
+        else:
+            silent += 1
+    ctx.extra.update({"benign_refactorings_replayed": len(names) - skipped, "benign_refactorings_silent": silent,
+                      "benign_refactorings_no_verdict": noverdict, "benign_refactorings_skipped": skipped})
+    if bad:
+        raise AnalysisError("benign regression: %s" % bad)
+
+
 def run(ctx, jobs=None):
     pid = ctx.pid
     names = []
